@@ -10,6 +10,14 @@ claimed = {
    tech="symbolic execution of go/ssa + SMT (bit-vector) validity queries, z3",
    ref="5 C04"),
 }
+WORLD_NOTE="Bounded: every feasible path of the harness inside the stated bounds (evidence.coverage.bounds) is explored by forking symbolic execution of the real code; structural choices (which entity/ids/target/op) are enumerated by the solver's case split, payload words / counts / indices stay symbolic. Trusted: go/ssa lowering, gosx interpreter + memory model (validated against native runs by conformance traces on every run), reflect/unsafe/fmt intrinsics, z3. Nothing is claimed outside the bounds."
+claimed["C01"]=dict(cat="model_checking",
+   text="Symbolic execution of the real create/add/remove/exchange/assign/set/relation code from scripted prefixes plus one (thorough: two) symbolic operation(s) with every legal argument choice; after each step a reference model of the documentation is compared with every public observable (Has/Mask/Ids/Get/payload words/targets/queries) for all payload values at once, and an in-package structural invariant is asserted. Bounded model checking; counterexamples are replayed natively.",
+   note=WORLD_NOTE, tech="bounded symbolic execution of go/ssa with SMT-decided path conditions and assertions (z3), reference-model oracle", ref="5 C01")
+claimed["C12"]=dict(cat="model_checking",
+   text="(a) ecs.subscribes, the listener-side copy, the subscription bit assembly and event.Subscription are decided for all inputs (symbolic trigger, 256/64-bit masks, nil-ness, relation ids) against the documented rule; Dispatch is decided for three sub-listeners with fully symbolic subscriptions/restrictions and one fully symbolic event: each sub-listener receives exactly what it would receive alone, and the union restriction never drops such an event.",
+   note="Trusted: go/ssa lowering, gosx interpreter (conformance-validated), z3. Dispatch bound: 3 sub-listeners, 3 construction orders. Call-site trigger arguments at world level are covered by the C11 harnesses' event oracle.",
+   tech="symbolic execution of go/ssa + SMT validity queries (z3)", ref="5 C12")
 na_reason = {}
 default_na="check not built yet in this round (solver-based harness pending)"
 checks=[]
